@@ -32,3 +32,18 @@ package tar
 //@   site[only_a_directory_is_updated] call:UpdateMetaUnix : arg0 == m.path && res("call:Lstat#0", 1) == nil && res("invoke:IsDir#0", 0)
 //@   site[looks_at_the_same_path] call:Lstat : arg0 == m.path
 //@   site[asks_the_lstat_result] invoke:IsDir : arg0 == res("call:Lstat#0", 0)
+
+// ---- C38: no entry is placed through a symbolic link ---------------------------------------------
+// outputPath goes on to the next component only after Lstat (which does not follow links) has looked at
+// the path built so far and found neither an error nor a symbolic link there; only the last component is
+// exempt (the extraction functions remove and re-create it). outputPath itself only inspects: it creates
+// nothing, so nothing can appear behind a link before the link has been seen.
+//@ func iface io/fs.FileInfo.Mode
+//@ func (*Extractor).outputPath
+//@   prop C38
+//@   arith bv
+//@   modifies all
+//@   loop 0 continue[component_inspected_before_going_on] called("call:Lstat#0") && res("call:Lstat#0", 1) == nil && res("invoke:Mode#0", 0) & os.ModeSymlink == 0
+//@   site[inspects_the_path_built_so_far] call:Lstat : arg0 == platformPath
+//@   site[never_creates_directories] call:MkdirAll : false
+//@   site[never_creates_a_directory] call:Mkdir : false
